@@ -58,14 +58,14 @@ class Worker:
         self.bindir = bindir or build.ensure(flavour, quiet=True)
         self.exe = os.path.join(self.bindir, "utapv")
         self.proc = None
-        self.errpath = None
+        self.errfile = None
         self.extra_env = extra_env or {}
         self.stack_kb = stack_kb
         self.restarts = 0
 
     def start(self):
-        fd, self.errpath = tempfile.mkstemp(prefix="utapv-err-", dir=os.environ.get("UTAPV_TMP", "/dev/shm"))
-        os.close(fd)
+        # anonymous (already unlinked) file shared with the worker as its stderr
+        self.errfile = tempfile.TemporaryFile(prefix="utapv-err-", dir=os.environ.get("UTAPV_TMP", "/dev/shm"))
         env = dict(os.environ)
         env["ASAN_OPTIONS"] = "detect_leaks=0:abort_on_error=0:allocator_may_return_null=1:detect_stack_use_after_return=0"
         env["UBSAN_OPTIONS"] = "print_stacktrace=1"
@@ -77,7 +77,7 @@ class Worker:
 
             def pre():
                 resource.setrlimit(resource.RLIMIT_STACK, (kb * 1024, kb * 1024))
-        self.proc = subprocess.Popen([self.exe, "--stderr", self.errpath], stdin=subprocess.PIPE,
+        self.proc = subprocess.Popen([self.exe, "--stderr-inherit"], stdin=subprocess.PIPE, stderr=self.errfile,
                                      stdout=subprocess.PIPE, env=env, preexec_fn=pre, bufsize=0)
         self._buf = b""
 
@@ -89,18 +89,18 @@ class Worker:
             except Exception:
                 pass
             self.proc = None
-        if self.errpath:
+        if self.errfile is not None:
             try:
-                os.unlink(self.errpath)
+                self.errfile.close()
             except OSError:
                 pass
-            self.errpath = None
+            self.errfile = None
 
     def _stderr_tail(self):
         try:
-            with open(self.errpath, "rb") as fh:
-                data = fh.read()
-            return data[-3000:].decode(errors="replace")
+            n = os.fstat(self.errfile.fileno()).st_size
+            data = os.pread(self.errfile.fileno(), 3000, max(0, n - 3000))
+            return data.decode(errors="replace")
         except Exception:
             return ""
 
